@@ -417,6 +417,10 @@ func consumeStreamsBlockedFrame(b []byte) (typ streamType, max int64, n int) {
 		return 0, 0, -1
 	}
 	n += nn
+	if max > maxStreamsLimit {
+		// https://www.rfc-editor.org/rfc/rfc9000.html#section-19.14-4
+		return 0, 0, -1
+	}
 	return typ, max, n
 }
 
